@@ -6,18 +6,27 @@ S3 tie       : harness/c17_harness.cpp (real CodeWriterUtils / arm::Utils / a64 
 S4 search    : an independent python oracle (architectural decoders written from the manuals) judges every single-case
                answer of the implementation; a disagreement model/implementation is localised to single inputs and judged too
 """
+import os
 import random
 import re
+import sys
 import vlib
+sys.path.insert(0, os.path.dirname(os.path.dirname(os.path.abspath(__file__))))
+import c17_layouts  # noqa: E402  (translator: field layouts of encode_offset32 from the source text)
 from concurrent.futures import ThreadPoolExecutor
 
 # Thumb-2 branch formats: the tree is probed on every run (probe_t32). "pinned" = the defective packers of the pinned tree
 # (known findings C17/thumb32-*), "fixed" = fixes/C17-thumb32-branch-formats.patch applied. The model variant is chosen
 # accordingly (ml/c17_driver.ml argv[1]); the python oracle below always judges against the architecture, so as soon as
 # the known_findings lines are flipped to kind=fixed a returning defect is a VIOLATION with a concrete offset.
+LAYOUT_DEPENDENT = ("C17_layouts_current",)
+LAYOUT_TYPE_TO_TY = {"T32_ADR": "t32_adr", "T32_BLX": "t32_blx", "T32_B": "t32_b", "T32_BCond": "t32_bcond",
+                     "A32_U23_0To3At0_4To7At8": "a32_u23_split", "A32_1To24At0_0At24": "a32_blx", "A64_ADR": "adr", "A64_ADRP": "adrp"}
 T32_VARIANT = {"v": "pp"}    # first letter: B.W/BL/BLX packer, second: B<c>.W packer; p = pinned (defective), f = fixed
 X86_MEM_CHECKED = {"v": "u"}   # "c": (Mem, Imm) ALU forms refuse a qword destination with a non-int32 immediate (fixed tree), "u": pinned
-X86_OPS = ["add", "or", "adc", "sbb", "and", "sub", "xor", "cmp"]
+UNSIGNED64_NEG_CHECKED = {"v": "u"}   # "c": encode_offset64 refuses a negative displacement for kUnsignedOffset (fixed), "u": pinned
+X86_TM_CHECKED = {"v": "u"}    # "c": TEST r/m64, imm and MOV m64, imm refuse a non-int32 immediate (fixed tree), "u": pinned (truncates)
+X86_OPS = ["add", "or", "adc", "sbb", "and", "sub", "xor", "cmp", "test", "mov", "imul", "push"]
 NLIST = [2, 7, 8, 9, 12, 14, 16, 19, 21, 24, 25, 26, 31, 32, 33, 48, 63, 64]
 
 M64 = (1 << 64) - 1
@@ -265,6 +274,8 @@ OTHER_FORMATS = [
     ("signed 7@15 d3", TY["signed"], 4, 7, 15, 3), ("signed 5@3 (1 byte)", TY["signed"], 1, 5, 3, 0),
     ("signed 11@2 d1 (2 byte)", TY["signed"], 2, 11, 2, 1), ("signed 33@7 (8 byte)", TY["signed"], 8, 33, 7, 2),
     ("unsigned 40@3 (8 byte)", TY["unsigned"], 8, 40, 3, 0),
+    ("unsigned 61@0 d3 (8 byte, bits+discard = 64)", TY["unsigned"], 8, 61, 0, 3), ("unsigned 64@0 (8 byte)", TY["unsigned"], 8, 64, 0, 0),
+    ("unsigned 60@2 d3 (8 byte, bits+discard = 63)", TY["unsigned"], 8, 60, 2, 3),
     ("t32 adr", TY["t32_adr"], 4, 12, 0, 0), ("a32 adr", TY["a32_adr"], 4, 12, 0, 0), ("a32 u23 12", TY["a32_u23"], 4, 12, 0, 0),
     ("a32 u23 8 d2", TY["a32_u23"], 4, 8, 0, 2), ("a32 u23 split", TY["a32_u23_split"], 4, 8, 0, 0),
     ("a32 blx", TY["a32_blx"], 4, 25, 0, 1),
@@ -281,8 +292,8 @@ def gen_stream(rng, tier):
     # fields dense windows centred on BOTH limits and on 0 plus a strided pass.  Every R is cut into pieces of <= RPIECE
     # evaluations so that the 16 shards are balanced (the extracted model does ~25k write_offset/s per process).
     quick = tier == "quick"
-    rmax = 1 << (17 if quick else 27)
-    win = 8192 if quick else 100000
+    rmax = 1 << (17 if quick else 22)
+    win = 8192 if quick else 32768
     RPIECE = 16384 if quick else (1 << 20)
 
     def emit_r(ty, vs, bits, sh, dl, lo, cnt, step, old):
@@ -413,15 +424,20 @@ def gen_stream(rng, tier):
         k = rng.randrange(1, 65)
         ypts.add(sext(rng.getrandbits(k), k))
     for imm in sorted(ypts):
-        for op in range(8):
+        for op in range(10):   # ALU group, test, mov
             for size in (1, 2, 4, 8):
                 for acc in (0, 1):
                     for (optsize, longform) in ((0, 0), (1, 0), (0, 1)):
-                        if optsize and not (op == 4 and size == 8):
+                        if optsize and not (op in (4, 9) and size == 8):
                             continue
                         cmds.append("Y %d 0 %d %d %d %d %d" % (op, size, acc, optsize, longform, imm))
                 for longform in (0, 1):
                     cmds.append("Y %d 1 %d 0 0 %d %d" % (op, size, longform, imm))
+        for longform in (0, 1):
+            cmds.append("Y 11 0 8 0 0 %d %d" % (longform, imm))
+            for size in (2, 4, 8):
+                for form in (0, 1):
+                    cmds.append("Y 10 %d %d %d 0 %d %d" % (form, size, rng.randrange(2), longform, imm))
     # E: is_encodable_offset_32/64 at exactly the limits of every bit count (both signs, +-2 around), plus random
     for w in (32, 64):
         for nb in range(1, w + 1):
@@ -544,6 +560,8 @@ def judge(cmd, ans, logical_sets):
                 got = decode_field(ty, vs, bits, sh, dl, w)
                 if got != off:
                     key = KNOWN_BAD_TYPES.get(name) or "C17/%s/wrong-field" % name
+                    if name == "unsigned" and vs == 8 and off < 0:
+                        key = "C17/unsigned64/negative-accepted"
                     return (key, "%s (%s) stored %#x which denotes displacement %d, not %d" % (cmd, name, w, got, off))
             return None
         else:
@@ -653,6 +671,8 @@ def judge(cmd, ans, logical_sets):
         nm = "%s %s, %d" % (X86_OPS[op], ("acc" if acc else "reg") + str(8 * size) if form == 0 else "m%d" % (8 * size), imm)
         int32 = -(1 << 31) <= imm < (1 << 31)
         and32 = op == 4 and form == 0 and 0 <= imm < (1 << 32)
+        if op >= 8:
+            return judge_test_mov(cmd, nm, op, form, size, acc, optsize, longform, imm, ok, has66, rexw, short, opc, immsize, field)
         if not ok:
             if size < 8 or int32 or and32:
                 return ("C17/x86-arith/spurious-refusal", "%s (%s) refused although an encoding exists" % (cmd, nm))
@@ -702,13 +722,89 @@ def judge(cmd, ans, logical_sets):
 
 
 def model_cmd(model):
-    return [model, T32_VARIANT["v"], X86_MEM_CHECKED["v"]]
+    return [model, T32_VARIANT["v"], X86_MEM_CHECKED["v"], X86_TM_CHECKED["v"], UNSIGNED64_NEG_CHECKED["v"]]
+
+
+def probe_unsigned64(impl):
+    """8-byte unsigned field with bits + discard = 64: is the displacement -8 refused (fixed) or stored as 2^61 - 1 (pinned)?"""
+    out = vlib.sh([impl], inp="V %d 8 61 0 3 -8 0\nV %d 8 64 0 0 -1 0\n" % (TY["unsigned"], TY["unsigned"]))[1].split("\n")
+    return "c" if all(o.split()[:2] == ["V", "0"] for o in out[:2]) else "u"
+
+
+def probe_x86_test_mov(impl):
+    """Are `test rax, 0x100000000`, `test qword ptr [rcx], 0x100000000`, `mov qword ptr [rcx], 0x100000000` refused (fixed) or truncated (pinned)?"""
+    out = vlib.sh([impl], inp="Y 8 0 8 1 0 0 4294967296\nY 8 1 8 0 0 0 4294967296\nY 9 1 8 0 0 0 4294967296\n"
+                               "Y 10 0 8 1 0 0 4294967296\nY 10 1 8 1 0 0 4294967296\nY 11 0 8 0 0 0 4294967296\n")[1].split("\n")
+    return "c" if all(o.split()[:2] == ["Y", "0"] for o in out[:6]) else "u"
 
 
 def probe_x86_mem(impl):
     """Does `add qword ptr [rcx], 0x100000000` get refused (fixed) or truncated to imm32 = 0 (pinned)?"""
     out = vlib.sh([impl], inp="Y 0 1 8 0 0 0 4294967296\n")[1].split()
     return "c" if out[:2] == ["Y", "0"] else "u"
+
+
+def judge_test_mov(cmd, nm, op, form, size, acc, optsize, longform, imm, ok, has66, rexw, short, opc, immsize, field):
+    """TEST r/m, imm (A8/A9, F6/F7 /0) and MOV r/m, imm (B0+r, B8+r, C6/C7 /0) per the SDM."""
+    int32 = -(1 << 31) <= imm < (1 << 31)
+    mask = lambda n: (1 << (8 * n)) - 1
+    if op in (10, 11):
+        if op == 11:
+            size = 8
+        if not ok:
+            return None if (size == 8 and not int32) else ("C17/x86-imm/spurious-refusal", "%s (%s) refused although an encoding exists" % (cmd, nm))
+        if op == 11:
+            good_opc = opc in (0x68, 0x6A) and short and not has66 and immsize == (1 if opc == 0x6A else 4)
+            opsize = 8
+        else:
+            opsize = 8 if rexw else (2 if has66 else 4)
+            good_opc = opc in (0x69, 0x6B) and not short and opsize == size and immsize == (1 if opc == 0x6B else min(size, 4))
+        if not good_opc or (longform and immsize == 1):
+            return ("C17/x86-imm/opcode", "%s (%s) -> 66=%d REX.W=%d opcode %#x with %d immediate bytes" % (cmd, nm, has66, rexw, opc, immsize))
+        eff = sext(field, 8 * immsize) & mask(opsize)
+        if eff != imm & mask(opsize):
+            key = "C17/x86-imm/%s-imm64-truncated" % X86_OPS[op] if size == 8 and not int32 else "C17/x86-imm/wrong-immediate"
+            return (key, "%s (%s) -> opcode %#x imm%d = %#x: the CPU uses %#x, not %#x" % (cmd, nm, opc, 8 * immsize, field, eff, imm & mask(opsize)))
+        return None
+    if op == 8 or form == 1:
+        if not ok:
+            return None if (size == 8 and not int32) else ("C17/x86-imm/spurious-refusal", "%s (%s) refused although an encoding exists" % (cmd, nm))
+        byteop = opc in (0xA8, 0xF6, 0xC6)
+        opsize = 8 if rexw else (2 if has66 else (1 if byteop else 4))
+        if opsize != size:
+            return ("C17/x86-imm/operand-size", "%s (%s) -> operand size %d" % (cmd, nm, opsize))
+        if op == 8:
+            want = (0xA8 if size == 1 else 0xA9) if short else (0xF6 if size == 1 else 0xF7)
+            if short and (not acc or form != 0 or longform):
+                return ("C17/x86-imm/short-form", "%s (%s) -> opcode %#x" % (cmd, nm, opc))
+        else:
+            want = 0xC6 if size == 1 else 0xC7
+            if short:
+                return ("C17/x86-imm/short-form", "%s (%s) -> opcode %#x" % (cmd, nm, opc))
+        if opc != want or immsize != min(size, 4):
+            return ("C17/x86-imm/opcode", "%s (%s) -> opcode %#x with %d immediate bytes" % (cmd, nm, opc, immsize))
+        eff = sext(field, 8 * immsize) & mask(size)
+        if eff != imm & mask(size):
+            key = "C17/x86-imm/%s-imm64-truncated" % ("test" if op == 8 else "mov-m64") if size == 8 and not int32 else "C17/x86-imm/wrong-immediate"
+            return (key, "%s (%s) -> opcode %#x imm%d = %#x: the CPU uses %#x, not %#x" % (cmd, nm, opc, 8 * immsize, field, eff, imm & mask(size)))
+        return None
+    # MOV reg, imm: always encodable
+    if not ok:
+        return ("C17/x86-imm/spurious-refusal", "%s (%s) refused although an encoding exists" % (cmd, nm))
+    rid = 0 if acc else 1
+    if 0xB0 <= opc <= 0xB7:
+        good = size == 1 and immsize == 1 and opc == 0xB0 + rid and field == imm & 0xFF and not rexw and not has66
+    elif 0xB8 <= opc <= 0xBF:
+        opsize = 8 if rexw else (2 if has66 else 4)
+        good = opc == 0xB8 + rid and immsize == opsize and (
+            (opsize == size and field == imm & mask(size)) or (size == 8 and opsize == 4 and not longform and 0 <= imm < (1 << 32) and field == imm))
+    elif opc == 0xC7:
+        good = size == 8 and rexw and immsize == 4 and not short and not longform and (sext(field, 32) & mask(8)) == imm & mask(8)
+    else:
+        good = False
+    if not good:
+        return ("C17/x86-imm/mov-reg-wrong", "%s (%s) -> 66=%d REX.W=%d opcode %#x imm%d = %#x does not load %#x" % (cmd, nm, has66, rexw, opc, 8 * immsize, field, imm & mask(size)))
+    return None
 
 
 def run_pair(ck, impl, model, cmds, shards=16):
@@ -764,14 +860,47 @@ def localise(ck, impl, model, cmd):
 
 def run(ck):
     rng = random.Random(ck.seed)
-    obl = ck.coq_properties()
-    ck.log("theorems: %d, failed: %d" % (len(obl), len([o for o in obl if not o["ok"]])))
+    # ---- translator tie: the field layouts of encode_offset32, re-extracted from the source text of the working tree
+    gen_dir = None; layout_broken = None; layout_info = {"status": "same as committed snapshot"}
+    try:
+        layouts, text_changes = c17_layouts.extract(vlib.REPO)
+        regen = ck.coq_regen({"C17Layouts.v": c17_layouts.render(layouts)}, order=["C17Layouts.v"])
+        if regen is not None:
+            gen_dir, failed, rlog = regen
+            layout_info["status"] = "differs from committed snapshot, recompiled"
+            if failed:
+                layout_broken = "the layouts extracted from codewriter.cpp are not the ones the theorems are about: " + rlog[-600:]
+                gen_dir = None
+        for (key, got, want) in text_changes:
+            ck.violation("C17/translator/case-text-changed/" + key, "encode_offset32 case %s reads %r; the model was transcribed from %r" % (key, got, want),
+                         {"case": key, "now": got, "transcribed_from": want, "broken": "hand transcription of the case in OffsetModel.v"}, no_input=True)
+        # the masks the source implies must be the masks the python oracle judges with (two independent descriptions)
+        for tname, m in c17_layouts.masks(layouts).items():
+            tyn = LAYOUT_TYPE_TO_TY[tname]
+            bits = {"t32_adr": 12, "t32_blx": 23, "t32_b": 24, "t32_bcond": 20, "a32_u23_split": 8, "a32_blx": 25, "adr": 21, "adrp": 21}[tyn]
+            om = field_mask(TY[tyn], 4, bits, 5 if tyn in ("adr", "adrp") else 0)
+            if om != m:
+                ck.violation("C17/translator/mask-vs-oracle/" + tyn, "the source text of case %s sets bits %#x, the architectural field mask is %#x" % (tname, m, om),
+                             {"type": tname, "source_mask": m, "oracle_mask": om, "broken": "field layout of " + tname}, no_input=True)
+        layout_info["masks"] = {k: hex(v) for k, v in c17_layouts.masks(layouts).items()}
+    except c17_layouts.TranslatorError as e:
+        layout_broken = "tools/c17_layouts.py cannot read encode_offset32 any more: %s" % e
+    obl = ck.coq_properties(gen_dir=gen_dir)
+    if layout_broken:
+        layout_info["status"] = "BROKEN"
+        for o in obl:
+            if o["name"] in LAYOUT_DEPENDENT:
+                o["ok"] = False
+    ck.log("layout translator: %s; theorems: %d, failed: %d" % (layout_info["status"], len(obl), len([o for o in obl if not o["ok"]])))
     impl = ck.build_harness("c17", ["c17_harness.cpp"])
     model = ck.ocaml_model("Extract_Codec.v", ["zconv.ml", "c17_driver.ml"], name="c17")
     logical_sets = {32: all_logical(32), 64: all_logical(64)}
     T32_VARIANT["v"] = probe_t32(impl)
     X86_MEM_CHECKED["v"] = probe_x86_mem(impl)
-    ck.log("Thumb-2 branch packers of the tree: %s; x86 ALU (Mem, Imm) qword int32 test: %s" % (T32_VARIANT["v"], {"c": "present", "u": "absent"}[X86_MEM_CHECKED["v"]]))
+    X86_TM_CHECKED["v"] = probe_x86_test_mov(impl)
+    UNSIGNED64_NEG_CHECKED["v"] = probe_unsigned64(impl)
+    ck.log("Thumb-2 branch packers of the tree: %s; x86 ALU (Mem, Imm) qword int32 test: %s; TEST r/m64 / MOV m64 / IMUL / PUSH int32 test: %s; unsigned 8-byte negative test: %s" % (
+        T32_VARIANT["v"], {"c": "present", "u": "absent"}[X86_MEM_CHECKED["v"]], {"c": "present", "u": "absent"}[X86_TM_CHECKED["v"]], {"c": "present", "u": "absent"}[UNSIGNED64_NEG_CHECKED["v"]]))
 
     if ck.replay:
         import json
@@ -852,20 +981,27 @@ def run(ck):
             if j is not None:
                 ck.violation(j[0], j[1], {"command": cmd, "impl": x, "model": y})
     for o in ck.proof_failures():
-        ck.violation("C17/proof/" + o["name"], "theorem %s no longer checks (%s)" % (o["name"], getattr(ck, "coq_log", "")[-800:]),
+        ck.violation("C17/proof/" + o["name"], "theorem %s no longer checks (%s)" % (o["name"], (layout_broken if (layout_broken and o["name"] in LAYOUT_DEPENDENT) else getattr(ck, "coq_log", ""))[-800:]),
                      {"broken": "theorem " + o["name"], "file": "coq/theories/Properties/Properties_C17.v"}, no_input=True)
     samples = [{"cmd": c, "impl": x, "model": y} for c, x, y in list(zip(cmds, ri, rm))[:3] + list(zip(cmds, ri, rm))[len(cmds) // 2: len(cmds) // 2 + 3]]
     return ck.finish(
         "proof",
         {"evaluations": evaluations, "distinct_nontrivial": len(nontrivial),
-         "rule": "commands T/R/V/L/A/F/B/I/M/H/X/Y/E/N generated from VERIF_SEED (ranges enumerate whole fields up to 2^17 offsets (quick; larger fields: dense 8192-offset windows at both limits and 0, a window in discard units, and a strided pass) / 2^27 (thorough) offsets per format, "
+         "rule": "commands T/R/V/L/A/F/B/I/M/H/X/Y/E/N generated from VERIF_SEED (ranges enumerate whole fields up to 2^17 offsets (quick; larger fields: dense 8192-offset windows at both limits and 0, a window in discard units, and a strided pass) / 2^22 (thorough) offsets per format, "
                  "dense at the limits; all logical-immediate values, all fp8, all A32 immediates, all 81 half-word classes); a case is non-trivial when the "
                  "encoder accepted at least one value of it (distinct command lines counted)",
+         "proved_for_every_value": "Properties_C17.v: every OffsetType round trip / refusal / bits outside the mask (all int64 offsets), logical, fp8, add/sub, "
+                                   "byte-mask, A32 modified immediates in both directions, move-wide sequences, is_int_n / is_encodable_offset, bit-field aliases "
+                                   "against the UBFM/SBFM/BFM pseudo-code (every register content), x86 ALU/TEST/MOV/IMUL/PUSH immediates (every int64 immediate); "
+                                   "the layout table denotes the model's packers (every uint32 value) and equals the table re-extracted from codewriter.cpp",
+         "compared_on_stream": "the command counts below are what was COMPARED (real code vs extracted model, and real code vs python oracle) on this run: "
+                               "whole fields up to 2^17 (quick) / 2^22 (thorough) offsets, dense windows at every field limit, every logical-immediate value, "
+                               "every fp8 / byte-mask / A32 encoding, every (lsb,width) of the bit-field aliases, the x86 immediates at every size limit",
          "samples": samples, "commands_by_kind": kinds, "single_cases_judged_by_oracle": n_single,
          "traces_validated_against_impl": len(cmds), "model_vs_impl_disagreements": disagreements,
          "formats": [f[0] for f in USED_FORMATS + OTHER_FORMATS],
          "limit_cases_present": lim_counters, "limit_cases_total": len(lim_counters), "limit_cases_missing": len(lim_missing),
-         "t32_variant_of_tree": T32_VARIANT["v"], "x86_mem_imm64_test_of_tree": X86_MEM_CHECKED["v"],
+         "layout_translator": layout_info, "t32_variant_of_tree": T32_VARIANT["v"], "x86_mem_imm64_test_of_tree": X86_MEM_CHECKED["v"], "x86_test_mov_imm64_test_of_tree": X86_TM_CHECKED["v"], "unsigned64_negative_test_of_tree": UNSIGNED64_NEG_CHECKED["v"],
          "bfm_pseudocode_cross_validation_cases": n_z, "bfm_pseudocode_cross_validation_mismatches": bad_z, "llvm_mc_t32_reference_cases": n_ref, "llvm_mc_t32_reference_errors": len(ref_errors)},
         assumptions=["the C++ harness calls the real functions of /repo's working tree (CodeWriterUtils::write_offset, arm::Utils::*, "
                      "a64 encode_mov_sequence_*/encode_lmh via #include of a64assembler.cpp)",
